@@ -356,3 +356,82 @@ Proof.
     + apply IH. apply andb_prop in E as (E1 & _). apply Nat.ltb_lt in E1. lia.
     + cbn [fst]. exact E.
 Qed.
+
+(* ---------- merged tree: every Avatar cursor command that can move right / set the column ends with
+   TerminalState::limit_caret_pos, so the caret column never leaves the screen (the loaders' non-terminal buffer:
+   the row is not limited).  Not needed for the round trip (the writer's only goto is ^V^H 1 1, on which the
+   clamp is the identity: limit_caret_id), but it is what the merged fix commits establish. ---------- *)
+Lemma limit_caret_px w p : (0 < w)%nat -> (px (limit_caret w p) < w)%nat.
+Proof. intro H. unfold limit_caret, set_pos. cbn [px]. lia. Qed.
+
+Lemma limit_caret_py w p : py (limit_caret w p) = py p.
+Proof. reflexivity. Qed.
+
+Lemma limit_caret_id w p : (px p < w)%nat -> limit_caret w p = p.
+Proof. intro H. destruct p as [ls x y a h]. unfold limit_caret, set_pos. cbn [px py lines pattr lh] in *. f_equal. lia. Qed.
+
+Lemma avt_home_goto w p : (0 < w)%nat ->
+  run avt_ps avt_astep (avt_bstep w) AChars p [22; 8; 1; 1] = Some (AChars, set_pos p 0 0).
+Proof.
+  intro H. cbn [run step avt_astep avt_bstep]. cbn.
+  rewrite limit_caret_id; [reflexivity|]. cbn [px set_pos set_attr]. exact H.
+Qed.
+
+Lemma print_char_px w p c : (0 < w)%nat -> (px p < w)%nat -> (px (print_char w p c) < w)%nat.
+Proof.
+  intros Hw Hp. unfold print_char. cbn [px].
+  destruct (Nat.leb_spec w (S (px p))); [unfold lf; cbn [px]; exact Hw | cbn [px]; lia].
+Qed.
+
+Lemma ansi_print_px w p ch p' : (0 < w)%nat -> (px p < w)%nat -> ansi_print w p ch = Some p' -> (px p' < w)%nat.
+Proof.
+  intros Hw Hp. unfold ansi_print.
+  destruct (ch =? 27); [discriminate|].
+  destruct (ch =? C_LF); [intro E; inversion E; subst; exact Hw|].
+  destruct (ch =? C_FF); [intro E; inversion E; subst; exact Hw|].
+  destruct (ch =? C_CR); [intro E; inversion E; subst; exact Hw|].
+  destruct (ch =? C_BEL); [intro E; inversion E; subst; exact Hp|].
+  destruct (ch =? 127); [intro E; inversion E; subst; exact Hp|].
+  intro E; inversion E; subst. apply print_char_px; assumption.
+Qed.
+
+Lemma ansi_repeat_px w ch n : (0 < w)%nat -> forall p p', (px p < w)%nat -> ansi_repeat w n p ch = Some p' -> (px p' < w)%nat.
+Proof.
+  intro Hw. induction n as [|n IH]; intros p p' Hp; cbn [ansi_repeat].
+  - intro E; inversion E; subst; exact Hp.
+  - destruct (ansi_print w p ch) as [p1|] eqn:E1; [|discriminate].
+    apply IH. exact (ansi_print_px w p ch p1 Hw Hp E1).
+Qed.
+
+Lemma avt_step_column w : (0 < w)%nat -> forall ps p ch ps' p', (px p < w)%nat ->
+  step avt_ps avt_astep (avt_bstep w) ps p ch = Some (ps', p') -> (px p' < w)%nat.
+Proof.
+  intros Hw ps p ch ps' p' Hp. unfold step.
+  destruct (avt_astep ps (pattr p) ch) as [[ps1 a1]|] eqn:Ea.
+  - intro E; inversion E; subst. exact Hp.
+  - destruct ps; cbn [avt_bstep].
+    + destruct (ch =? AVT_CLR); [intro E; inversion E; subst; exact Hw|].
+      destruct (ansi_print w p ch) as [p1|] eqn:E1; cbn [lift_print]; [|discriminate].
+      intro E; inversion E; subst. exact (ansi_print_px w p ch p' Hw Hp E1).
+    + discriminate.
+    + destruct (ansi_repeat w (N.to_nat ch) p c) as [p1|] eqn:E1; cbn [lift_print]; [|discriminate].
+      intro E; inversion E; subst. exact (ansi_repeat_px w c _ Hw p p' Hp E1).
+    + cbv zeta.
+      destruct (ch mod 65536 =? 3); [intro E; inversion E; subst; apply limit_caret_px; exact Hw|].
+      destruct (ch mod 65536 =? 4); [intro E; inversion E; subst; apply limit_caret_px; exact Hw|].
+      destruct (ch mod 65536 =? 5); [intro E; inversion E; subst; cbn [px set_pos]; lia|].
+      destruct (ch mod 65536 =? 6); [intro E; inversion E; subst; apply limit_caret_px; exact Hw|].
+      discriminate.
+    + discriminate.
+    + discriminate.
+    + intro E; inversion E; subst. apply limit_caret_px; exact Hw.
+Qed.
+
+Theorem avt_caret_column_proof : forall w bs ps p ps' p', (0 < w)%nat -> (px p < w)%nat ->
+  run avt_ps avt_astep (avt_bstep w) ps p bs = Some (ps', p') -> (px p' < w)%nat.
+Proof.
+  intros w bs. induction bs as [|ch t IH]; intros ps p ps' p' Hw Hp; cbn [run].
+  - intro E; inversion E; subst; exact Hp.
+  - destruct (step avt_ps avt_astep (avt_bstep w) ps p ch) as [[ps1 p1]|] eqn:E1; [|discriminate].
+    apply IH; [exact Hw|]. exact (avt_step_column w Hw ps p ch ps1 p1 Hp E1).
+Qed.
